@@ -31,6 +31,7 @@ type TraceEv struct {
 	InTxn bool
 	Pos   string
 	Extra interface{}
+	Typ   types.Type // result type (callbacks)
 }
 
 type Txn struct {
@@ -95,6 +96,7 @@ type State struct {
 	lastCursor  Term
 	lastCursorDocs Term
 	entry       *State // state at the entry of the function under contract (for old() in loop invariants)
+	bodyEntered bool
 	loopHead    map[string]*State
 	loopEntry   map[string]*State
 	loopMark    map[string]int
